@@ -307,7 +307,9 @@ PARTIAL = [
     ("[CH2:1][CH2:2]>>[CH2+:1].[CH2-:2]", ["CCCO"]),
     ("[CH3:1][Br:2].[BH2:3][CH3:4]>>[CH3:1][CH3:4].[BH2:3][Br:2]", ["CC(C)CBr.CB(O)O"]),
 ]
-OPTS = [{}, {"strategy": "comp"}, {"strategy": "bt"}, {"automorphism": True}, {"explicit_h": False, "implicit_temp": True}]
+OPTS = [{}, {"strategy": "comp"}, {"strategy": "bt"}, {"automorphism": True}, {"explicit_h": False, "implicit_temp": True},
+        # the embedding guards the reactor forwards to the search engine (no result above the threshold)
+        {"embed_threshold": 1000}, {"embed_threshold": 1000, "embed_pre_filter": True}, {"embed_threshold": 3}]
 
 
 def hand_cases(tier):
@@ -326,6 +328,10 @@ def hand_cases(tier):
             for core in (True, False):
                 out.append(dict(kind="prune", name="partial%d/%s/fwd/%d" % (ti, "core" if core else "full", si),
                                 tpl=tpl, core=core, sub=sub, invert=False, opts={"partial": True}))
+    # more than 100 raw matches (a limit or truncation between the search and the pruning shows against the reference taken
+    # at the search engine): C-C homolysis (2 rule symmetries: 110 raw, 55 kept) and heterolysis (1: 110 kept) on a C56 chain
+    for ti, tpl in enumerate(("[CH2:1][CH2:2]>>[CH2:1].[CH2:2]", "[CH2:1][CH2:2]>>[CH2+:1].[CH2-:2]")):
+        out.append(dict(kind="prune", name="many%d/core/fwd" % ti, tpl=tpl, core=True, sub="C" * 56, invert=False, opts={}))
     for ti, (tpl, subs) in enumerate(ASYM):
         for core in (True, False):
             for si, sub in enumerate(subs):
@@ -457,6 +463,12 @@ def degenerate_cases(tier, rng):
                          "edges": [[1, 2, {"order": 1}], [2, 3, {"order": 2}], [3, 4, {}]]})
     add("absent-element", {"nodes": [bare(1, charge=0), bare(2, element="C", charge=0), bare(3, charge=0), bare(4, element="*", charge=0)],
                            "edges": [[1, 2, {"order": 1}], [2, 3, {"order": 1}], [2, 4, {"order": 1}]]})
+    # equal numbers of different type (1 == 1.0, 0 == 0.0): one label for Python, so the mirror stays a symmetry; a label built
+    # from str(value) or type-sensitive hashing would separate the two ends
+    add("mixed-int-float", {"nodes": [bare(1, element="C", charge=0, hcount=1), bare(2, element="C", charge=0, hcount=0),
+                                      bare(3, element="C", charge=0.0, hcount=1.0)],
+                            "edges": [[1, 2, {"order": 1}], [2, 3, {"order": 1.0}]]})
+    add("negative-ids", GG.relabel(path(3), {1: -1, 2: 0, 3: 1}))          # outside the model's domain: oracle only
     add("no-attributes-at-all", {"nodes": [bare(i) for i in (0, 1, 2, 3)], "edges": [[0, 1, {}], [1, 2, {}], [2, 3, {}]]})
     # ids with two and three digits (string sorting of ids differs from numeric), sizes >= 10
     add("ids-9-10-100", GG.relabel(path(3), {1: 100, 2: 9, 3: 10}))
@@ -469,12 +481,13 @@ def degenerate_cases(tier, rng):
     add("two-decalins", disjoint(mirror(GG.cycle(5)), mirror(GG.cycle(5))))          # 20 nodes, 2 equal components
     # >= 100 atoms: beyond the enumerator budget of the model, oracle only (4-6 s of brute force each: thorough tier);
     # the quick tier keeps a 40-atom chain and a 30-atom ring
-    if tier == "quick":
-        add("path40", path(40))
-        add("cycle30-one-O", with_label(GG.cycle(30), 0, element="O"))
-    else:
-        add("path120", path(120))
-        add("cycle100-one-O", with_label(GG.cycle(100), 0, element="O"))
+    add("path40", path(40))
+    add("cycle30-one-O", with_label(GG.cycle(30), 0, element="O"))
+    # size thresholds of the "more than N atoms / more than N automorphisms" kind: a 7-leaf star (5 040 automorphisms, above the
+    # model's budget: oracle only, 1 s) and two graphs with >= 100 atoms (oracle only, 4 s of brute force each)
+    add("star7", star(7))
+    add("path120", path(120))
+    add("cycle100-one-O", with_label(GG.cycle(100), 0, element="O"))
     return out
 
 
